@@ -59,9 +59,11 @@ Min(a, b) == IF Lt(a, b) THEN a ELSE b
 -----------------------------------------------------------------------------
 (* bit access *)
 
-Bit(w, i) == (w[(i \div LB) + 1] \div 2^(i % LB)) % 2
+Pow2T == [ k \in 0 .. LB |-> 2^k ]                 \* constant table (evaluated once)
+Bit(w, i) == (w[(i \div LB) + 1] \div Pow2T[i % LB]) % 2
 
-BitsOf(w) == { i \in 0 .. WB - 1 : Bit(w, i) = 1 }
+LimbBits(x, j) == IF x = 0 THEN {} ELSE { j * LB + k : k \in { k \in 0 .. LB - 1 : (x \div Pow2T[k]) % 2 = 1 } }
+BitsOf(w) == LimbBits(w[1], 0) \cup LimbBits(w[2], 1) \cup LimbBits(w[3], 2) \cup LimbBits(w[4], 3)
 
 (* word with exactly the bits of the set S (S \subseteq 0..WB-1) *)
 LimbOf(S, j) ==           \* limb j (0-based) of the word whose set bits are S
